@@ -94,8 +94,8 @@ impl Check for C17 {
     }
     fn runs(&self, tier: Tier) -> u64 {
         match tier {
-            Tier::Quick => 80_000,
-            Tier::Thorough => 4_000_000,
+            Tier::Quick => 1_000_000,
+            Tier::Thorough => 40_000_000,
         }
     }
     fn run(&self, tape: &mut Tape, ctx: &RunCtx) -> RunOut {
